@@ -432,12 +432,23 @@ func runC06_4(c *core.Ctx) {
 	if f == nil || !c.Need("engine.start", start) || !c.Need("engine.stop", stop) || !c.Need("closeEventLoops", cel) {
 		return
 	}
+	// engine.start only dispatches to one of the two start-up routines: written out in run, either of them is "the start"
+	startUps := []*types.Func{start, c.P.Func("", "engine.runEventLoops"), c.P.Func("", "engine.activateReactors")}
+	isStart := func(call *ast.CallExpr) bool {
+		for _, s := range startUps {
+			if s != nil && flow.IsCall(f.Info, call, s) {
+				return true
+			}
+		}
+		return false
+	}
 	const (
 		fBoot = 1 << iota
 		fStarted
 		fStartOK
 		fStartFail
 		fTornDown
+		fStopCalled
 	)
 	p := &flow.Problem{Must: true}
 	p.Node = func(b *flow.Block, i int, n ast.Node, in uint64) uint64 {
@@ -446,10 +457,14 @@ func runC06_4(c *core.Ctx) {
 			switch {
 			case cf != nil && flow.SameFunc(cf, v.handler["OnBoot"]):
 				in |= fBoot
-			case flow.IsCall(f.Info, call, start):
+			case isStart(call):
 				in |= fStarted
 			case flow.IsCall(f.Info, call, cel):
 				in |= fTornDown
+			case flow.IsCall(f.Info, call, stop):
+				if _, isDefer := n.(*ast.DeferStmt); !isDefer {
+					in |= fStopCalled
+				}
 			}
 		}
 		return in
@@ -470,7 +485,7 @@ func runC06_4(c *core.Ctx) {
 	deferSeen := false
 	sol.Walk(func(b *flow.Block, i int, n ast.Node, before uint64) {
 		for _, call := range flow.Calls(n) {
-			if flow.IsCall(f.Info, call, start) {
+			if isStart(call) {
 				c.Check(before&fBoot != 0, f.Name, "OnBoot before start", call.Pos(), "the handler's OnBoot verdict is known before anything is started",
 					"eng.start can run before OnBoot was consulted: a Shutdown returned from OnBoot would no longer prevent the engine from starting")
 			}
@@ -482,7 +497,28 @@ func runC06_4(c *core.Ctx) {
 		}
 	})
 	if !deferSeen {
-		c.Violate(f.Name, "defer eng.stop after successful start", f.Decl.Pos(), "run no longer defers eng.stop: Run would return immediately while the loops keep running, and nothing would ever shut them down")
+		// no defer: the stop sequence must then be called on every path that returns after a successful start
+		explicit, okAll := 0, true
+		sol.Walk(func(b *flow.Block, i int, n ast.Node, before uint64) {
+			if _, isDefer := n.(*ast.DeferStmt); isDefer {
+				return
+			}
+			for _, call := range flow.Calls(n) {
+				if flow.IsCall(f.Info, call, stop) {
+					explicit++
+					if before&fStartOK == 0 {
+						okAll = false
+					}
+				}
+			}
+		})
+		sol.AtExit(func(b *flow.Block, facts uint64) {
+			if facts&fStartOK != 0 && facts&fStopCalled == 0 {
+				okAll = false
+			}
+		})
+		c.Check(explicit > 0 && okAll, f.Name, "defer eng.stop after successful start", f.Decl.Pos(), "eng.stop is called (not deferred) on every return that follows a successful start",
+			"run neither defers eng.stop nor calls it on every path after a successful start: Run would return while the loops keep running, and nothing would ever shut them down")
 	}
 	sol.AtExit(func(b *flow.Block, facts uint64) {
 		if facts&fStartFail != 0 {
